@@ -16,7 +16,11 @@ pub fn run(ctx: &Ctx) -> Report {
 		let d = refs.dfa(f, Kind::Path);
 		for (level, n) in &plans {
 			let alpha = domains::seg_alphabet(f, *level);
-			let all = domains::paths(&alpha, *n);
+			let mut all = domains::paths(&alpha, *n);
+			if *level == 0 {
+				all.extend(domains::long_paths(false));
+				all.extend(domains::long_paths(true));
+			}
 			let shards = 64usize;
 			let r = run_shards(ctx, shards, |si| {
 				let mut r = Report::new();
